@@ -436,6 +436,20 @@ def check_comparison(ctx):
     f = m.func("_array_types._MetaAbstractArray.__instancecheck_str__")
     ctx.saw(f)
     loops = [n for n in walk_scope(f.node) if isinstance(n, ast.For) and isinstance(n.iter, ast.Attribute) and n.iter.attr == "dtypes"]
+    any_call = None
+    if not loops:
+        # second spelling: `any(<predicate>(d) for d in cls.dtypes)` with a local predicate
+        for c_ in [x for x in walk_scope(f.node) if isinstance(x, ast.Call) and isinstance(x.func, ast.Name) and x.func.id == "any" and len(x.args) == 1
+                   and isinstance(x.args[0], (ast.GeneratorExp, ast.ListComp))]:
+            ge = c_.args[0]
+            if len(ge.generators) == 1 and isinstance(ge.generators[0].iter, ast.Attribute) and ge.generators[0].iter.attr == "dtypes" and not ge.generators[0].ifs \
+                    and isinstance(ge.elt, ast.Call) and len(ge.elt.args) == 1 and isinstance(ge.elt.args[0], ast.Name) and isinstance(ge.generators[0].target, ast.Name) \
+                    and ge.elt.args[0].id == ge.generators[0].target.id:
+                t_ = m.resolve_call(f, ge.elt)
+                if t_.kind == "func" and t_.target.params:
+                    any_call = (c_, t_.target)
+        if any_call is not None:
+            return _check_comparison_any(ctx, m, f, any_call[0], any_call[1])
     need(len(loops) == 1, "__instancecheck_str__: loop over cls.dtypes not found")
     lp = loops[0]
     var = lp.target.id
@@ -524,6 +538,80 @@ def check_comparison(ctx):
                     lambda n: eval_bool(n.ast, sentinel_atom), None, None)
     if any(o.end is hdr for o in outs):
         ctx.bad("C03.3", f, lp, "the dtype loop is not guarded by the any-dtype sentinel test", construct="sentinel guard")
+    else:
+        ctx.ok("C03.3", f.qualname, "dtype test skipped only for the any-dtype sentinel")
+
+
+def _check_comparison_any(ctx, m, f, call, pred):
+    """`if not any(pred(d) for d in cls.dtypes): return <message>`: the predicate's arms, then the two
+    outcomes of the any() walked on the CFG."""
+    from ..absim import eval_bool, simulate
+    from ..roles import roles_for
+    from ..typestate import NoReturn
+
+    var = pred.params[0]
+    arms = {}
+    for st in ast.walk(pred.node):
+        if isinstance(st, ast.If) and isinstance(st.test, ast.Compare) and norm(st.test.left) == f"type({var})" and isinstance(st.test.ops[0], (ast.Is, ast.Eq)):
+            arms[norm(st.test.comparators[0])] = st
+        elif isinstance(st, ast.If) and isinstance(st.test, ast.Call) and norm(st.test.func) == "isinstance" and norm(st.test.args[0]) == var:
+            arms[norm(st.test.args[1])] = st
+    if "str" not in arms:
+        raise AnalysisError("C03.3: str arm of the dtype comparison not found")
+    s_arm = arms["str"]
+    cmp = [c for x in s_arm.body for c in ast.walk(x) if isinstance(c, ast.Compare)]
+    if any(len(c.ops) == 1 and isinstance(c.ops[0], ast.Eq) and {norm(c.left), norm(c.comparators[0])} == {"dtype", var} for c in cmp):
+        ctx.ok("C03.3", pred.qualname, "str specifier: dtype == cls_dtype (exact match)")
+    else:
+        got = [norm(c) for c in cmp] or [norm(x) for x in s_arm.body]
+        ctx.bad("C03.3", pred, s_arm.body[0], f"a string dtype specifier is not compared by equality with the array's dtype name (found `{'; '.join(got)}`): "
+                "'float3' would match 'float32', or 'int8' would match 'uint8'")
+    p_arm = arms.get("re.Pattern")
+    if p_arm is None:
+        ctx.bad("C03.3", pred, pred.node, "regex dtype specifiers are no longer handled", construct="no re.Pattern arm")
+    else:
+        calls = [c for x in p_arm.body for c in ast.walk(x) if isinstance(c, ast.Call) and isinstance(c.func, ast.Attribute) and norm(c.func.value) == var]
+        if any(c.func.attr in ("match", "fullmatch", "search") and [norm(a) for a in c.args] == ["dtype"] for c in calls):
+            ctx.ok("C03.3", pred.qualname, f"regex specifier: {norm(calls[0])}")
+        else:
+            ctx.bad("C03.3", pred, p_arm.body[0], "a regex dtype specifier is not matched against the dtype name")
+    r = roles_for(m)
+    g = NoReturn(m).cfg(f)
+    tnodes = [n for n in g.live_nodes() if n.kind == "test" and any(x is call for x in ast.walk(n.ast))]
+    need(len(tnodes) == 1, "C03.3: the test of `any(...)` over the dtypes is not a branch condition")
+
+    def stage_end(n):
+        if n.kind in ("return", "raise", "exit", "exit_e", "exit_b", "falloff"):
+            return True
+        return n is not tnodes[0] and any(r.role_of_call(f, c) == "get_shape_memo" or (isinstance(c.func, ast.Attribute) and c.func.attr == "_check_shape") for c in node_calls(n))
+
+    for hit in (False, True):
+        def atom(e, hit=hit):
+            return hit if e is call else None
+        outs = simulate(g, tnodes[0], stage_end, lambda n: eval_bool(n.ast, atom), None, None)
+        for o in outs:
+            rv = o.end.ast.value if o.end.kind == "return" else None
+            rejecting = o.end.kind == "return" and (isinstance(rv, ast.JoinedStr) or (isinstance(rv, ast.Constant) and isinstance(rv.value, str) and rv.value != "") or (
+                isinstance(rv, ast.Name) and o.env.get(rv.id) == "nonempty"))
+            if not hit and not rejecting:
+                ctx.bad("C03.3", f, o.end.ast if o.end.ast is not None else call, "a dtype mismatch does not return a non-empty message (the check would accept)")
+                break
+            if hit and rejecting:
+                ctx.bad("C03.3", f, o.end.ast, "a dtype that matches one of the category's specifiers is rejected all the same")
+                break
+        else:
+            ctx.ok("C03.3", f.qualname, "dtype hit goes on to the shape stage" if hit else "dtype miss returns a non-empty message (reject)")
+
+    def sentinel_atom(e):
+        t = norm(e)
+        if isinstance(e, ast.Compare) and len(e.ops) == 1 and isinstance(e.ops[0], (ast.Is, ast.IsNot)) and "_any_dtype" in t and "dtypes" in t:
+            return isinstance(e.ops[0], ast.Is)
+        return None
+
+    outs = simulate(g, g.entry, lambda n: n is tnodes[0] or n.kind in ("return", "raise", "exit", "exit_e", "exit_b", "falloff"),
+                    lambda n: eval_bool(n.ast, sentinel_atom), None, None)
+    if any(o.end is tnodes[0] for o in outs):
+        ctx.bad("C03.3", f, call, "the dtype test is not guarded by the any-dtype sentinel test", construct="sentinel guard")
     else:
         ctx.ok("C03.3", f.qualname, "dtype test skipped only for the any-dtype sentinel")
 
